@@ -48,7 +48,7 @@ Proof. exact unknown_event_frame. Qed.
 Theorem C03_transition_log : forall d i s e t s1 cur nxt s2 s3 k,
   initialized s = true -> f_state s = Some cur ->
   resolve_event d i s e t = (s1, Ok (Some nxt)) ->
-  run_exit i s1 cur t = (s2, None) -> f_next s2 = None ->
+  run_exit i s1 cur t = (s2, None) -> str_mem cur (i_on_exit_bad i) = false -> f_next s2 = None ->
   run_enter d i (st_state (st_log s2 (if str_mem cur (i_on_exit i) then [LOnExit cur (f_out s2)] else [])) nxt)
             nxt t = (s3, None) ->
   f_next s3 = None -> assoc nxt (fd_timed d) = None -> chain_limit d = S k ->
